@@ -76,6 +76,7 @@ theorem verify_no_panic (c : Nat) (db : Hc.PairVerify.Store) (st : Hc.PairVerify
           · simp
           · simp
           · simp
+          · simp
           · split <;> simp
   | badMethod => simp [Hc.PairVerify.step, Hc.PairVerify.stepR]
   | badState n => simp [Hc.PairVerify.step, Hc.PairVerify.stepR]
